@@ -34,7 +34,10 @@ CHECKS["C06"] = dict(
     text="Theorems C06_ratio_valid / C06_ratio_roundtrip / C06_diff_valid / C06_diff_roundtrip / C06_branch_is_difference / "
          "C06_branch_nonneg (prop/C06.v) hold for every rooted binary topology, every sampling-time vector (ties "
          "included) and every parameter value in the domain; C06_kind_preserved holds for every sequence of "
-         "cpu()/cuda()/to() over effects regenerated from tree_model.py; C06_run_is_model is the free theorem that the "
+         "cpu()/cuda()/to() over effects regenerated from tree_model.py; C06_ratio_forward_after_inverse(_indexed) / "
+         "C06_diff_forward_after_inverse: re-applying the forward map to what the inverse returns gives the tree of heights "
+         "back (with C06_ratio_inverse_lands_in_domain / _forward_lands_strictly_above / C06_diff_inverse_domain: mutually "
+         "inverse bijections between the parameter domain and the valid time trees); C06_run_is_model is the free theorem that the "
          "exact rational run equals the real-valued model. The model is tied to the code by exact-rational "
          "correspondence on node_heights, branch_lengths(), transform(x), transform.inv(y) over all topologies <= 4 "
          "(quick) / <= 6 (thorough) taxa plus random ones, single and batched.",
@@ -106,18 +109,22 @@ CHECKS["C02"] = dict(
     design="§6 C02")
 
 CHECKS["C07"] = dict(
-    technique="Coq proofs of inverses, of the Jacobian diagonals as true derivatives (Coquelicot is_derive) and of the triangular dependency structure (cumulative maps; ratio node-height transform on every topology) + interval-run correspondence and autograd-Jacobian comparison on the implementation",
+    technique="Coq proofs of inverses, of every partial derivative of the cumulative maps and of the ratio node-height transform on every topology (Coquelicot is_derive), of det(triangular) = product of the diagonal for the Laplace determinant, hence report = ln|det J| + interval-run correspondence and autograd-Jacobian comparison on the implementation",
     text="Theorems in prop/C07.v: inverse-after-forward = identity for cumsum, cumsum-exp, softplus, cumsum-softplus, log, "
          "exp, sigmoid, affine; the diagonal entries of each Jacobian are the true derivatives (softplus' = sigmoid, exp, "
          "1/x, sigmoid(1-sigmoid), chain rule for cumulative maps) and the reported quantities are their logarithms; "
          "cumulative maps are triangular (prefix dependence); for the ratio node-height transform on every topology "
          "heights do not depend on parameters outside the subtree, each height is affine in its own ratio with slope "
-         "(parent height - bound) and the reported value is the sum of ln of exactly these entries. The models are tied "
+         "(parent height - bound) and the reported value is the sum of ln of exactly these entries; and the reports ARE "
+         "ln |det| of the full matrix of partial derivatives (C07_cumsum/cumsumexp/cumsumsoftplus_report_is_logabsdet, "
+         "C07_ratio_report_is_logabsdet(_indexed) on every topology), the determinant being the Laplace expansion, "
+         "C07_det_lower/upper_triangular = product of the diagonal (the same definition equals mathcomp's det on every "
+         "commutative ring, proof/P_tridet_mc.v). The models are tied "
          "to the code by interval-run correspondence on transform(x), .inv(y), .log_abs_det_jacobian, "
          "TransformedParameter() and ReparameterizedTimeTreeModel(); the property itself (reported = slogdet of the "
          "autograd Jacobian; inv(fwd(x)) = x) is evaluated on the implementation for every case.",
-    note="Trusted: Coq kernel; hand-written models; det(triangular) = product of the diagonal (mathcomp det_trig) is not "
-         "re-proved on the list representation; torch autograd on the implementation side; StickBreaking / "
+    note="Trusted: Coq kernel; hand-written models; the ratio Jacobian is taken with rows and columns in pre-order (a "
+         "simultaneous reordering by node index does not change |det|: not proved on lists); torch autograd on the implementation side; StickBreaking / "
          "ConvexCombination / RescaledRate transforms not covered (non-square or nothing reported); TrilExpDiagonal: "
          "inverse only (it reports no log-det).",
     design="§6 C07")
